@@ -75,7 +75,21 @@ func runC12(s *core.Sim, tier string) RunInfo {
 		return info()
 	}
 	// --- plan writers: runs placed relative to `top`
-	type run struct{ from, to uint64 }
+	// a run is handed to the Store in one Append call: all of from..to in ascending order, or
+	// only its two ends (a gap inside one call), or those two highest first
+	type run struct {
+		from, to uint64
+		shape    string
+	}
+	hdrs := func(r run) []*H {
+		switch {
+		case r.shape == "ends" && r.to > r.from:
+			return []*H{w.Ch.At(r.from), w.Ch.At(r.to)}
+		case r.shape == "ends-reversed" && r.to > r.from:
+			return []*H{w.Ch.At(r.to), w.Ch.At(r.from)}
+		}
+		return w.Ch.Range(r.from, r.to)
+	}
 	nw := 1 + s.Tape.Draw("writers", 2)
 	plans := make([][]run, nw)
 	var invMu sync.Mutex
@@ -88,10 +102,13 @@ func runC12(s *core.Sim, tier string) RunInfo {
 		for j := 0; j < n; j++ {
 			off := uint64(s.Tape.Draw("run-off", 7)) // 0 = contiguous with the initial chain
 			ln := uint64(1 + s.Tape.Draw("run-len", 3))
-			r := run{top + off, top + off + ln - 1}
+			r := run{from: top + off, to: top + off + ln - 1}
+			if k >= 1 { // (the first Append to an empty store defines its tail and head by position)
+				r.shape = core.Pick(s.Tape, "run-shape", []string{"", "", "", "ends", "ends-reversed"})
+			}
 			plans[wi] = append(plans[wi], r)
-			for h := r.from; h <= r.to; h++ {
-				planned[h] = true
+			for _, h := range hdrs(r) {
+				planned[h.Height()] = true
 			}
 		}
 		hist = append(hist, fmt.Sprintf("writer%d %v", wi, plans[wi]))
@@ -139,10 +156,10 @@ func runC12(s *core.Sim, tier string) RunInfo {
 		wi := wi
 		tasks = append(tasks, s.Go(fmt.Sprintf("writer%d", wi), func() {
 			for _, r := range plans[wi] {
-				for h := r.from; h <= r.to; h++ {
-					setInvoked(h)
+				for _, h := range hdrs(r) {
+					setInvoked(h.Height())
 				}
-				if err := w.St.Append(context.Background(), w.Ch.Range(r.from, r.to)...); err != nil {
+				if err := w.St.Append(context.Background(), hdrs(r)...); err != nil {
 					s.Violate("append-error", nil, "Append(%d..%d): %v", r.from, r.to, err)
 				}
 			}
@@ -280,7 +297,7 @@ func runC12Lifecycle(s *core.Sim, w *SW, first, top uint64, hist *[]string) {
 			return
 		}
 		var err error
-		if _, fin := s.Do("start-again", opBudget, func() { err = w.St.Start(context.Background()) }); !fin || err != nil {
+		if _, fin := s.Do("start-again", opBudget, func() { err = startStore(w.St) }); !fin || err != nil {
 			s.Violate("start-error", map[string]string{"same": "object"}, "Start of the same object: finished=%v err=%v", fin, err)
 			return
 		}
